@@ -11,7 +11,8 @@ META = {
                    "the marker, or belongs to a pure waiter / a dropped pool; a pure waiter never cancels someone else's marker; (P11) cancelling an attempt whose marker existed "
                    "removes the queued senders that depended on it (so they resolve with an error instead of staying pending) and keeps the dialling ones; (P12/P13) a pure waiter "
                    "whose channel closes gets Ready(Err(Unavailable)), never Pending; every connector result marks the checkout Connected before returning (C03.1); "
-                   "(P14) an abandoned attempt is continued and its drop releases the marker later; (P16) no re-entrant pool lock, lock-taking drop or await inside a lock region.",
+                   "(P14) an abandoned attempt is continued and its drop releases the marker later; (P16) no re-entrant pool lock, lock-taking drop or await inside a lock region."
+                   " P12 (Waiting::poll) and P13 (Checkout::poll) are decision tables: the expanded unit is evaluated abstractly for every (state, waiter outcome, connector outcome) and the answer plus the effects (connector polled, waiter closed, state set to Connected, connection registered, receiver given up) are compared with the typestate the pool relies on.",
     "trusted_base": ["rustc type/borrow checker", "tokio oneshot wakes the receiver on send/drop of the sender", "parking_lot::Mutex is not re-entrant (hence P16)"],
     "assumptions": ["each dial terminates (the property assumes it)", "runtime fairness"],
     "undecided": "termination of dials; fairness of the runtime; wake-ups inside tokio's oneshot",
